@@ -8,9 +8,9 @@ def A(): return native.algopy()
 
 
 class Op:
-    def __init__(self, name, f, npf=None, shapes=((), (2,), (2, 2)), dom=(0.3, 0.9), kind='elementwise', mp=None, args=(), nin=1, tol=1e-9, cplx=False, slicewise=False, view=False):
+    def __init__(self, name, f, npf=None, shapes=((), (2,), (2, 2)), dom=(0.3, 0.9), kind='elementwise', mp=None, args=(), nin=1, tol=1e-9, cplx=False, slicewise=False, view=False, only=None):
         self.name, self.f, self.npf, self.shapes, self.dom, self.kind, self.mp, self.args, self.nin = name, f, npf, shapes, dom, kind, mp, args, nin
-        self.tol, self.cplx, self.slicewise, self.view = tol, cplx, slicewise, view
+        self.tol, self.cplx, self.slicewise, self.view, self.only = tol, cplx, slicewise, view, only
 
 
 def table():
@@ -57,8 +57,8 @@ def table():
     for ax in (None, 0, 1, -1, -2):
         sw('sum[axis=%s]' % ax, lambda x, ax=ax: a.sum(x, axis=ax), lambda v, ax=ax: numpy.sum(v, axis=ax), ((3, 2), (2, 2, 3)))
     sw('sum[1d]', lambda x: a.sum(x), numpy.sum, ((3,),))
-    sw('tile[2]', lambda x: a.tile(x, 2), lambda v: numpy.tile(v, 2), ((3,), (3, 2)))
-    sw('tile[(2,1)]', lambda x: a.tile(x, (2, 1)), lambda v: numpy.tile(v, (2, 1)), ((3, 2),))
+    for reps in (2, (2,), (1, 2), (2, 1), (2, 1, 2), (1, 1, 1, 2)):          # fewer, as many and more repetitions than dimensions
+        sw('tile[%s]' % (reps,), lambda x, reps=reps: a.tile(x, reps), lambda v, reps=reps: numpy.tile(v, reps), ((), (3,), (3, 2)))
     sw('diag[vec]', lambda x: a.diag(x), numpy.diag, ((3,),)); sw('diag[mat]', lambda x: a.diag(x), numpy.diag, ((3, 3),))
     sw('triu', lambda x: a.triu(x), numpy.triu, ((3, 3),)); sw('tril', lambda x: a.tril(x), numpy.tril, ((3, 3),))
     sw('trace', lambda x: a.trace(x), numpy.trace, ((3, 3),))
@@ -69,6 +69,9 @@ def table():
     sw('fft[axis=0]', lambda x: a.fft.fft(x, axis=0), lambda v: numpy.fft.fft(v, axis=0), ((2, 4),)); sw('fft[n=3]', lambda x: a.fft.fft(x, n=3), lambda v: numpy.fft.fft(v, n=3), ((4,),))
     sw('zeros_like', lambda x: a.zeros_like(x), numpy.zeros_like, ((3,), (3, 2))); sw('ones_like', lambda x: a.ones_like(x), numpy.ones_like, ((3,), (3, 2)))
     sw('symvec', lambda x: a.symvec(x + x.T), lambda v: None, ((3, 3),))
+    # operations that only take part in the operand-frame check (their value semantics are not claimed by a property)
+    T.append(Op('floordiv[0/0]', lambda x, y: x // y, None, nin=2, shapes=((),), dom=(0, 0), kind='frame-only', only=('C14',)))
+    T.append(Op('floordiv', lambda x, y: x // y, None, nin=2, shapes=((), (2,)), dom=(0.5, 1), kind='frame-only', only=('C14',)))
     # linear algebra (zeroth coefficient = NumPy on the zeroth coefficient)
     def la(name, f, npf, shapes, nin=1, **kw): T.append(Op(name, f, npf, shapes=shapes, dom=(-1, 1), kind='linalg', nin=nin, **kw))
     la('dot[M,M]', lambda x, y: a.dot(x, y), numpy.dot, ((2, 3), (3, 2)), nin=2); la('dot[M,v]', lambda x, y: a.dot(x, y), numpy.dot, ((2, 3), (3,)), nin=2)
